@@ -279,6 +279,11 @@ def failure_signature(msg, output):
     return "crash.unknown"
 
 
+def job_args(P, j):
+    """extra command line of a harness job: its own arguments plus the per-case time limit"""
+    return list(j.get("args", [])) + ["--case-timeout", str(j.get("case_timeout", P.get("case_timeout", 600)))]
+
+
 def run_check(pid, tier, builder):
     P = PROPS[pid]
     seed = int(os.environ.get("VERIF_SEED", "1"))
@@ -333,7 +338,7 @@ def run_check(pid, tier, builder):
                 cmd = [exe, "--prop", j["prop"], "--cases", str(per), "--seed", str(splitmix(seed, pid, j["prop"], w)), "--size", str(size), "--out", prefix]
             if known_sigs:
                 cmd += ["--known", known_sigs]
-            cmd += j.get("args", [])
+            cmd += job_args(P, j)
             workers.append(Worker(j, w, cmd, prefix, run_env(j.get("env"))))
 
     # regression tier first: every saved case must pass
@@ -345,7 +350,7 @@ def run_check(pid, tier, builder):
             cmd = [builder.exe(cj["harness"]), "--prop", cj["prop"], "--replay", path, "--out", os.path.join(rundir, "corpus%d" % k)]
             if known_sigs:
                 cmd += ["--known", known_sigs]
-            cmd += cj.get("args", [])
+            cmd += job_args(P, cj)
             try:
                 r = subprocess.run(cmd, stdout=subprocess.PIPE, stderr=subprocess.STDOUT, text=True, errors="replace", env=run_env(cj.get("env")), cwd=rundir, timeout=900)
                 return path, cj, r.returncode, r.stdout
@@ -391,7 +396,7 @@ def run_check(pid, tier, builder):
             for w in list(running):
                 # a worker that has not started a new case for a long time is stuck (seen: sanitizer-runtime deadlock while reporting)
                 try:
-                    last = max(os.path.getmtime(w.prefix + ".current.choices"), w.started)
+                    last = max(os.path.getmtime(w.prefix + ".hb"), w.started)
                 except OSError:
                     last = w.started
                 if now - last > stall_s:
@@ -505,7 +510,7 @@ def run_check(pid, tier, builder):
             rep_out = ""
             for k in range(3):
                 try:
-                    r = subprocess.run([builder.exe(w.job["harness"]), "--prop", w.job["prop"], "--replay", final, "--out", os.path.join(rundir, "replay%d" % k)] + (["--known", known_sigs] if known_sigs else []) + w.job.get("args", []),
+                    r = subprocess.run([builder.exe(w.job["harness"]), "--prop", w.job["prop"], "--replay", final, "--out", os.path.join(rundir, "replay%d" % k)] + (["--known", known_sigs] if known_sigs else []) + job_args(P, w.job),
                                        stdout=subprocess.PIPE, stderr=subprocess.STDOUT, text=True, errors="replace", env=w.env, cwd=rundir, timeout=900)
                 except subprocess.TimeoutExpired:
                     confirmed = False
@@ -627,7 +632,7 @@ def replay(pid, path, builder):
     os.makedirs(rundir, exist_ok=True)
     known, _ = load_known()
     ks = ",".join(k["sig"] for k in known if k["prop"] == pid)
-    r = subprocess.run([builder.exe(job["harness"]), "--prop", job["prop"], "--replay", os.path.abspath(path), "--out", os.path.join(rundir, "r")] + (["--known", ks] if ks else []) + job.get("args", []),
+    r = subprocess.run([builder.exe(job["harness"]), "--prop", job["prop"], "--replay", os.path.abspath(path), "--out", os.path.join(rundir, "r")] + (["--known", ks] if ks else []) + job_args(P, job),
                        env=run_env(job.get("env")), cwd=rundir)
     shutil.rmtree(rundir, ignore_errors=True)
     if r.returncode != 0:
